@@ -146,7 +146,7 @@ enum Op { OP_START = 1, OP_LOCK, OP_WAIT, OP_SIGNAL, OP_BCAST, OP_CREATE, OP_JOI
           OP_PEXIT, OP_SIGRUN, OP_WAKE, OP_TASK, OP_ISATTY, OP_PREEMPT };
 
 #define BIT(s) (1ull << (s))
-#define MAXF 192
+#define MAXF 640      // simulated threads per run (every operand of an invocation creates its own set)
 #ifdef SIM_ASAN
 #define STK (4u << 20)
 #else
@@ -167,6 +167,7 @@ struct Fiber {
   uint64_t prio = 0;                  // PCT
   void *ts = nullptr;                 // tsan fiber
   int shim_depth = 0;                 // tsan: nesting of simulator code (accesses ignored)
+  bool reaped = false;                // joined or detached: its stack and descriptor are released when it ends
   int saved_errno = 0;                // errno is thread-local in reality; all fibers share the OS thread's
   std::vector<char> tls;              // this thread's copy of lbzip2's thread-local storage (empty unless a change introduces TLS)
   uint64_t stalled_until = 0;         // stall fault: not scheduled before this decision step while anything else can run
@@ -785,6 +786,7 @@ int simw_pthread_join(pthread_t t, void **r) { SHIM;
   (void)r;
   int id = (int)t - 1;
   block_on(ST_JOIN, &S->F[id], OP_JOIN, id);
+  S->F[id].reaped = true;
   TS_ACQ(&S->F[id].fn);
   ev(OP_JOIN, id, 0);
   return 0;
@@ -1525,7 +1527,7 @@ int simw_isatty(int fd) { SHIM;
 // ---- calls the unchanged lbzip2 does not make but a change to it plausibly could (round 2; seeded change C18-3 used
 // pthread_detach).  Anything lbzip2 references that is neither modelled here nor a pure function stops the build
 // (tools/build.sh) instead of silently running against the real kernel.
-int simw_pthread_detach(pthread_t t) { SHIM; int id = (int)t - 1; if (id < 0 || id >= S->nf) return ESRCH; return 0; }   // fibers hold no resources beyond the run
+int simw_pthread_detach(pthread_t t) { SHIM; int id = (int)t - 1; if (id < 0 || id >= S->nf) return ESRCH; S->F[id].reaped = true; return 0; }   // fibers hold no resources beyond the run
 int simw_pthread_equal(pthread_t a, pthread_t b) { return a == b; }
 int simw_pthread_mutex_init(pthread_mutex_t *m, const pthread_mutexattr_t *a) { SHIM; (void)a; S->mtx[m].owner = -1; return 0; }
 int simw_pthread_mutex_destroy(pthread_mutex_t *m) { SHIM; S->mtx.erase(m); return 0; }
@@ -1749,6 +1751,7 @@ Result run(const Plan &plan) {
   ev(OP_START, 0, 0);
   switch_to(-1, 0, false);
   // back in root: run is over
+  for (int i = 1; i < s.nf; i++) if (s.F[i].state == ST_DONE && !s.F[i].reaped) R.unreaped_threads++;     // ended, never joined nor detached: stack and thread descriptor stay allocated
   for (auto &kv : s.live) heap_check_block(kv.first, kv.second);
 #ifdef SIM_ARENA
   for (auto &kv : s.poisoned) poison_verify(s, kv.first, kv.second);
